@@ -52,7 +52,9 @@ PRIOR = (gmutate.FS_CLASSES * 2 + ['m-digest', 'm-size', 'm-drop', 'm-ghost',
          + gmutate.UNREG_CLASSES * 2 + ['m-entry-for-dir', 'm-misc-dup',
                                         'm-manifest-data-twin',
                                         'm-manifest-as-data-only',
-                                        'm-manifest-as-data-only'])
+                                        'm-manifest-as-data-only',
+                                        'm-manifest-data-in-between',
+                                        'm-manifest-data-in-between'])
 EDITS = ['content', 'size', 'delete', 'stray', 'stray', 'stray-manifest-name', 'retype',
          'hidden-content', 'hidden-delete']
 N = {'quick': 1500, 'thorough': 60000}
